@@ -236,6 +236,61 @@ def r02h(ctx, rep, rule="R02h"):
                      "it to a global" % kw, [t.get("loc") or f.span])
 
 
+def r02j(ctx, rep, rule="R02j"):
+    from .. import shapes
+    facts = ctx["facts"]
+    rep.rule(rule, "the internal-definition scan recognises every definition the compiler accepts: compile_define treats any pair in "
+             "the target position as (variable . formals) — proper or dotted — so internally_defined_symbols must register the "
+             "car of the target under an is_pair test (or Pair arm), not under a narrower test such as is_list. A definition "
+             "the scan misses gets no slot of its own and assigns the enclosing procedure's variable or the global of that name.")
+    f = need(rep, rule, facts, ENVMOD + "internally_defined_symbols")
+    if f is None:
+        return
+    ins = [(bb, t) for bb, t in f.calls() if (callee(t) or "").endswith("HashSet::<T, S, A>::insert")]
+    rep.floor(rule, "registrations in internally_defined_symbols", len(ins), 2)
+    def same(o1, o2):
+        if o1[0] != o2[0]:
+            return False
+        if o1[0] == "call":
+            return o1[1] is o2[1] and o1[2] == o2[2]
+        if o1[0] in ("local", "arg"):
+            return o1[1] == o2[1] and o1[2] == o2[2]
+        return False
+
+    def through(op, names):
+        """peel `unwrap(call(x))` for call in names: returns the operand x, or None"""
+        o = f.origin(op)
+        if o[0] == "call" and (callee(o[1]) or "").endswith("Option::<T>::unwrap"):
+            o2 = f.origin(o[1]["args"][0])
+            if o2[0] == "call" and (callee(o2[1]) or "").rsplit("::", 1)[-1] in names:
+                return o2[1]["args"][0]
+        return None
+    k = 0
+    for bb, t in ins:
+        target = through(t["args"][1], ("car",))          # the inserted name is (car target)
+        if target is None or through(target, ("car",)) is None:   # and target is itself (car operands): the procedure form
+            continue
+        k += 1
+        to = f.origin(target)
+        tests = []
+        for sbb, cond, taken, tt in shapes.dominating_guards(f, bb):
+            co = f.origin(cond)
+            if co[0] == "call" and (callee(co[1]) or "").startswith("marwood::cell::Cell::is_") and co[1]["args"] and same(f.origin(co[1]["args"][0]), to):
+                tests.append(((callee(co[1]) or "").rsplit("::", 1)[-1], taken))
+        pair = any(n == "is_pair" and tk == "else" for n, tk in tests)
+        narrower = [n for n, tk in tests if tk == "else" and n not in ("is_pair", "is_symbol")]
+        key = "%s|internally_defined_symbols|procedure-form#%d" % (rule, k)
+        if pair and not narrower:
+            rep.ok(rule, key, "the procedure form of an internal define is recognised by is_pair on its target", [t["loc"]])
+        else:
+            rep.fail(rule, key, "internally_defined_symbols registers the name of (define (name . formals) ..) only under %s: a "
+                     "definition with a rest parameter — (define (f . r) ..), (define (f a . r) ..) — compiles, but gets no "
+                     "internal-definition slot and clobbers an outer binding of that name" % (
+                         ", ".join(narrower or [n for n, tk in tests]) or "no test of the target"), [t["loc"]])
+    if k == 0:
+        rep.anchor_lost(rule, "registration of the procedure form in internally_defined_symbols")
+
+
 def run(ctx, rep):
     C01.r01a(ctx, rep, rule="R02a", only=("free-variable-scan",))
     r02b(ctx, rep)
@@ -245,6 +300,7 @@ def run(ctx, rep):
     from . import prelude
     prelude.r01g(ctx, rep, rule="R02f")
     r02h(ctx, rep)
+    r02j(ctx, rep)
     # R02i: the collector keeps captured locations alive
     from . import C03
     rep.rule("R02i", "a binding stays usable after its creator returned: C03's trace-completeness obligations (R03c) for the "
